@@ -22,3 +22,17 @@ def raw_file(sr, var, name_bytes):
     f = osmodel.OsFile(sr.ex)
     f.data = S(b'x')
     o.nodes[(root, tuple(name_bytes))] = f
+
+
+def raw_socket(sr, var, name_bytes):
+    """a unix socket bound in the directory behind the library's back: an entry that is neither file nor directory"""
+    o = osmodel.osm(sr.ex)
+    root = sr.phys_roots[var]
+    o.nodes[(root, tuple(name_bytes))] = osmodel.OsSpecial(sr.ex)
+
+
+def raw_dangling_link(sr, var, name_bytes):
+    """a symbolic link to a target that does not exist"""
+    o = osmodel.osm(sr.ex)
+    root = sr.phys_roots[var]
+    o.nodes[(root, tuple(name_bytes))] = osmodel.OsDangling(sr.ex)
